@@ -34,9 +34,10 @@ Added with the second extension (all core Lean):
                         (`NlCall`, `NlWorld`, `runCalls`: caller arrays named by an id, overwritten in place,
                         `def_nonlin` with array objects, `tsolve`)
   m = None           -> `identMat`, `massOr`, `matSysOpt` (`np.diag(np.ones(ksize) / sqh)`)
-  rf partition       -> `pick`, `pickMat`, `scatter`, `tsolveRf`: the whole `tsolve` on all `n` rows — rf rows
-                        static with `v = a = 0` and initial conditions ignored, the others from `run` on the
-                        non-rf partition of `m, b, k, force, d0, v0`
+  rf partition       -> `pick`, `pickMat`, `scatter`, `nonrfOf`, `tsolveNonrf`, `tsolveRf`: the whole `tsolve` on all
+                        `n` rows — rf rows static with `v = a = 0` and initial conditions ignored, the others from
+                        `run` on the non-rf partition of `m, b, k, force, d0, v0`; nonlinear callbacks see the non-rf
+                        rows at every step (fix 62d98b6, finding F63)
 -/
 namespace PyYetiVerif.Newmark
 
@@ -327,14 +328,26 @@ def scatter (n : Nat) (nonrf rf : List Nat) (x y : Vec α) : Vec α :=
       | some p => y.a.getD p 0
       | none => 0⟩
 
+/-- rows that are not residual-flexibility rows, in order (`self.nonrf`) -/
+def nonrfOf (n : Nat) (rf : List Nat) : List Nat := (List.range n).filter fun i => !rf.contains i
+
+/-- the non-rf partition of `SolveNewmark(m, b, k, h, rf).tsolve(F, d0, v0)`: `run` on the picked `m, b, k, force, d0,
+v0`; the nonlinear callbacks see the non-rf rows at EVERY step, step 0 included (`D = d[self.nonrf]` in `_init_dva`
+since fix 62d98b6 (F63), `D = d[self.kdof]` in the loop) -/
+def tsolveNonrf [OfNat α 1] (n : Nat) (rf : List Nat) (M : Option (Mat α)) (B K : Mat α) (h : α)
+    (solveWith : Mat α → Vec α → Vec α) (nl : Sys (Vec α) α → Nat → List (Vec α) → Vec α)
+    (F : List (Vec α)) (d0 v0 : Vec α) : Option (Hist (Vec α)) :=
+  let nonrf := nonrfOf n rf
+  let S := matSysOpt (M.map (pickMat nonrf)) (pickMat nonrf B) (pickMat nonrf K) h solveWith
+  run S (nl S) (F.map (pick nonrf)) (pick nonrf d0) (pick nonrf v0)
+
 /-- `SolveNewmark(m, b, k, h, rf).tsolve(F, d0, v0)` on all `n` rows: `(d, v, a)` as lists of full-size columns.
-rf rows: `d = k_rf⁻¹ F_rf` column by column, `v = a = 0`, initial conditions ignored; the other rows: `run` on the
-non-rf partition.  Nonlinear callbacks: at step 0 they are handed the full-size rows, afterwards the non-rf rows only
-(what the code does; the docstring advises against combining `rf` with nonlinear terms).  `none` = `IndexError` (a single time step with at least one non-rf row). -/
+rf rows: `d = k_rf⁻¹ F_rf` column by column, `v = a = 0`, initial conditions ignored; the other rows: `tsolveNonrf`.
+`none` = `IndexError` (a single time step with at least one non-rf row). -/
 def tsolveRf [OfNat α 1] (n : Nat) (rf : List Nat) (M : Option (Mat α)) (B K : Mat α) (h : α)
     (solveWith : Mat α → Vec α → Vec α) (nl : Sys (Vec α) α → Nat → List (Vec α) → Vec α)
     (F : List (Vec α)) (d0 v0 : Vec α) : Option (List (Vec α) × List (Vec α) × List (Vec α)) :=
-  let nonrf := (List.range n).filter fun i => !rf.contains i
+  let nonrf := nonrfOf n rf
   let drf := rfStaticMat (pickMat rf K) solveWith (F.map (pick rf))
   let zrf : Vec α := ⟨Array.replicate rf.length 0⟩
   let znr : Vec α := ⟨Array.replicate nonrf.length 0⟩
@@ -342,15 +355,7 @@ def tsolveRf [OfNat α 1] (n : Nat) (rf : List Nat) (M : Option (Mat α)) (B K :
     some (drf.map (scatter n nonrf rf znr), drf.map fun _ => scatter n nonrf rf znr zrf,
       drf.map fun _ => scatter n nonrf rf znr zrf)
   else
-    let S := matSysOpt (M.map (pickMat nonrf)) (pickMat nonrf B) (pickMat nonrf K) h solveWith
-    -- `_init_dva` calls the callbacks for step 0 with the FULL-size array `d` (rf rows included: their static
-    -- displacements; column -1 holds `u₋₁` on the non-rf rows and the last static column on the rf rows), the loop
-    -- in `tsolve` calls them with `D = d[kdof]` (non-rf rows only) - transcribed as the code has it
-    let nl0 : Nat → List (Vec α) → Vec α := fun j hist =>
-      match j, hist with
-      | 0, [x, u] => nl S 0 [scatter n nonrf rf x (drf.headD zrf), scatter n nonrf rf u (drf.getLastD zrf)]
-      | _, _ => nl S j hist
-    match run S nl0 (F.map (pick nonrf)) (pick nonrf d0) (pick nonrf v0) with
+    match tsolveNonrf n rf M B K h solveWith nl F d0 v0 with
     | none => none
     | some hh =>
       some (List.zipWith (scatter n nonrf rf) hh.d drf, hh.v.map fun x => scatter n nonrf rf x zrf,
